@@ -21,7 +21,7 @@ RULE = ("an inode-like FileModel (names -> objects -> content digest; hard link 
 ASSUMPTIONS = ["histories that would dangle a link, copy a subtree containing a soft link, or nest a collection under a "
                "path that is later overwritten are not generated; the root group is only a creation / cross-file copy "
                "destination; both files are addressed by one canonical path string"]
-MIN_NONTRIVIAL = {"quick": 150, "thorough": 1500}
+MIN_NONTRIVIAL = {"quick": 100, "thorough": 1000}
 REQUIRED_FEATURES = ["op:create-a", "op:create-w", "op:recreate-occupied", "op:cp-same-file", "op:cp-cross-file", "op:mv",
                      "op:ln-hard", "op:ln-soft", "op:ln-external", "op:cp-onto-occupied", "op:cp-overwrite",
                      "via:cli", "via:api", "uri:no-leading-slash", "is_cooler:missing-group", "is_cooler:missing-file",
@@ -32,7 +32,7 @@ PATHS = ["/a", "/b", "/g/x", "/g/y", "/h", "/k/deep/z"]
 
 def plan(tier, seed):
     n = 16 if tier == "quick" else 48
-    per = 12 if tier == "quick" else 150
+    per = 25 if tier == "quick" else 150
     return [{"kind": "hist", "sub": i, "cases": per} for i in range(n)]
 
 
